@@ -1,0 +1,5 @@
+//go:build !verif
+
+package calculator
+
+func verifEvalHook(c *ExpressionCalculator, step *int) {}
